@@ -375,10 +375,25 @@ exactly the set-algebra result — `fixed = false` is /repo as it is -/
 def C13_seq (fixed : Bool) : Prop :=
   ∀ (w : Width) (op : BinOp) (r o : S), Sorted r → Sorted o → fallbackOp fixed w op r o = Spec.binop op r o
 
+/-- **One provider, any history, any operand pairing: the model refines the set spec.** For the live code (F1 repair,
+snapshot protocol), a plain bitmap or a wrapper with a free mutex and canonical content, and EVERY history of calls of
+the Duplex interface — add, remove, clear, checked add, contains, cardinality, slice, iteration with early stop, clone,
+and the four in-place binary operations with an operand that is a plain bitmap, a wrapper, or (for a wrapper) the
+receiver itself — every call returns, answers what the set spec answers, and leaves exactly the set the spec
+prescribes. (Operands are values here: a plain bitmap as its OWN operand, and what the native Xor does to a plain
+operand object, are the refuted instances in Props/C13Roaring.) -/
+def ProvRefinesSpec (fixed snap : Bool) : Prop :=
+  ∀ (p : Prov) (ops : List Spec.SeqOp), p.locked = false → Sorted p.set → (∀ op ∈ ops, op.Ok p.wrapped) →
+    Prov.accepted fixed snap p ops = true
+
+theorem model_refines_spec : ProvRefinesSpec true true :=
+  fun p ops hl hs hok => Spec.accepted_of_ok ops p hl hs hok
+
 /-- C13 at the strength of properties.jsonl for DAWGS' own code (native roaring operations assumed exact): exact set
 algebra on every pairing, and wrappers that give the same answers under concurrent use — linearizable, and every
 call returns (deadlock freedom for arbitrary, also wrapped, operands). `fixed`/`snapshot` select the code version. -/
 def C13_fullFor (fixed snapshot : Bool) : Prop :=
+  ProvRefinesSpec fixed snapshot ∧
   C13_seq fixed ∧
   (∀ (D R : Type) (d0 : Nat → D) (dflt : D) (progs : Nat → List (Item D R)),
     (∀ t, ∀ it ∈ progs t, it.WellFormed) →
@@ -403,12 +418,13 @@ theorem c13_seq_current_refuted : ¬ C13_seq false := fun h =>
 
 /-- C13 holds of the live code -/
 theorem c13_full : C13_full :=
-  ⟨c13_seq_fixed, fun D R d0 dflt progs hwf s hr => (wrapper_linearizable d0 dflt progs hwf s hr).1, wrapper_deadlock_free⟩
+  ⟨model_refines_spec, c13_seq_fixed, fun D R d0 dflt progs hwf s hr => (wrapper_linearizable d0 dflt progs hwf s hr).1,
+   wrapper_deadlock_free⟩
 
 /-- … and was false before each of the two repairs: wrappers deadlocked on wrapper operands (F12), the And/AndNot
 fallbacks lost elements (F1) -/
 theorem c13_full_old_refuted : ¬ C13_fullFor true false ∧ ¬ C13_fullFor false true :=
-  ⟨fun h => wrapper_deadlock_free_old_refuted_self.1 h.2.2, fun h => c13_seq_current_refuted h.1⟩
+  ⟨fun h => wrapper_deadlock_free_old_refuted_self.1 h.2.2.2, fun h => c13_seq_current_refuted h.2.1⟩
 
 /-! ### non-vacuity -/
 
@@ -423,6 +439,12 @@ example : andFallback .w32 [1, 2, 65536, 65537] [0, 1, 2, 3, 65536, 65537] = [1,
 -- hypotheses of or/xor fallback: satisfiable, results non-trivial
 example : orFallback [1, 5, 65536] [0, 5, 70000] = [0, 1, 5, 65536, 70000] ∧ Spec.binop .or [1, 5, 65536] [0, 5, 70000] = [0, 1, 5, 65536, 70000] := by decide
 example : xorFallback [1, 5, 65536] [0, 5, 70000] = [0, 1, 65536, 70000] := by decide
+-- `model_refines_spec`: hypotheses satisfiable on a non-trivial history (wrapper receiver, wrapper operand, self operand), and
+-- the acceptor is not vacuous: the unrepaired And fallback fails it on the F1 witness
+example : Prov.accepted true true { width := .w64, wrapped := true, set := [1, 5] }
+    [.add [7, 3], .bin .and (.wrapper false [3, 5, 9]), .checkedAdd 3, .bin .xor .selfWrapper, .card] = true := by decide
+example : Prov.accepted false true { width := .w32, wrapped := false, set := [0, 3, 5, 7] } [.bin .and (.wrapper false [])] = false := by
+  decide
 -- the monitor is not trivially true
 example : Spec.acceptsTrace [1, 2] [(.bin .and [2, 3], .unit, [2])] = true := by decide
 example : Spec.acceptsTrace [0, 3, 5, 7] [(.bin .and [], .unit, [3])] = false := by decide
